@@ -255,6 +255,20 @@ def run(ctx, rep, r1="R10.1", r2="R10.2", only_transform=False):
     else:
         rep.bad(r1, "scaled bounds")
         rep.finding(r1, f, "Bounds(-ones, ones)", f.node.lineno, "with scaling the internal bounds must be [-1, 1]^n (the image of [xl, xu] under the inverse point map)")
+    # scaling is applied only to a feasible box with finite lower AND upper bounds
+    sc = None
+    for node in ast.walk(f.node):
+        if isinstance(node, ast.Assign) and any(isinstance(t, ast.Name) and t.id == "scale" for t in node.targets) and isinstance(node.value, ast.BoolOp):
+            sc = node
+    if sc is None:
+        raise AnalysisError("Problem.__init__: the guard of the scaling branch was not found")
+    conj = [norm(v).replace(" ", "") for v in sc.value.values]
+    need = {"lower": any("isfinite" in c and ".xl" in c for c in conj), "upper": any("isfinite" in c and ".xu" in c for c in conj), "feasible": any("is_feasible" in c for c in conj)}
+    if isinstance(sc.value.op, ast.And) and all(need.values()):
+        rep.ok(r1, f"{f.local}:{sc.lineno} scaling only for a feasible box with finite lower and upper bounds")
+    else:
+        rep.bad(r1, "scaling guard")
+        rep.finding(r1, f, norm(sc)[:160], sc.lineno, f"the scaling guard does not require {[k for k, v in need.items() if not v] or 'a conjunction'}: with an infinite bound the scaling factor/shift are infinite and the internal x0 becomes NaN")
     # (x0 - s)/f checked in C01 R1.5; re-check here for the claim's completeness
     okx = False
     for node in ast.walk(f.node):
@@ -279,6 +293,12 @@ def run(ctx, rep, r1="R10.1", r2="R10.2", only_transform=False):
                         rep.finding(r1, f, norm(sub), node.lineno, "the reduced bounds / x0 are not restricted to the free variables")
     if only_transform:
         return
+    from ..report import Renamed
+    rep.rule("R10.3", "the n-dependent defaults and the nb_points bound use the dimension of the reduced problem (see C19 R19.7); violations are evaluated in the space of their system (see C02 R2.5)")
+    from . import c19
+    c19.r197(ctx, Renamed(rep, to="R10.3"), ctx.func(c19.OPT_FUNC), ctx.func(T.MINIMIZE))
+    from .. import spaces
+    spaces.check_reduced_operands(ctx, Renamed(rep, to="R10.3"), "R10.3")
     # ---- R10.2 -----------------------------------------------------------------
     from .c08 import r84
     r84(ctx, rep, rule=r2)
